@@ -4,6 +4,7 @@ import UcantoModel.Model.Patterns
 import UcantoModel.Model.WorldJson
 import UcantoModel.Model.Http
 import UcantoModel.Model.CarDriver
+import UcantoModel.Model.Did
 /-!
 # Line-protocol driver
 stdin: one case per line, TAB separated: `op  arg1  arg2 …`
@@ -164,9 +165,48 @@ def doCar (op : String) (args : List String) (impl : String) : String :=
     | _, _ => bad "car args"
   | _, _ => bad "car args"
 
+open DidM in
+def didCanon (d : Did) : String :=
+  let s := toString d
+  let k := if d.key && !d.str.isEmpty then 1 else 0
+  let p := if parse s == some d then "P" else ""
+  let q := if decode (bytes d) == some d then "D" else ""
+  s!"ok|{k}|{Bytes.toHexTok (bytes d)}|{Bytes.toHexTok s}|{p}{q}"
+
+open DidM in
+def doDid (op arg : String) : String :=
+  match Bytes.ofHex arg with
+  | none => bad "hex"
+  | some b =>
+    match op with
+    | "didparse" => (match parse b with | some d => didCanon d | none => "err") ++ "\t-"
+    | "diddecode" => (match decode b with | some d => didCanon d | none => "err") ++ "\t-"
+    | "sigframe" => s!"{sigCode b}|{sigSize b}|{Bytes.toHexTok (sigRaw b)}\t-"
+    | "edsigner" => (match edSignerDecode b with
+        | some (priv, pub) => s!"ok|{Bytes.toHexTok priv}|{Bytes.toHexTok pub}" | none => "err") ++ "\t-"
+    | "edverifier" => (match edVerifierDecode b with
+        | some pub => s!"ok|{Bytes.toHexTok pub}" | none => "err") ++ "\t-"
+    | _ => bad op
+
+open DidM in
+def doSigNew (code raw : String) : String :=
+  match code.toNat?, Bytes.ofHex raw with
+  | some c, some r =>
+    let s := newSig c r
+    s!"{Bytes.toHexTok s}|{sigCode s}|{sigSize s}|{Bytes.toHexTok (sigRaw s)}\t-"
+  | _, _ => bad "signew"
+
 def handle (line : String) : String :=
   match line.splitOn "\t" with
   | ["access", mode, world, spine, checker, _, impl] => doAccess mode world spine checker impl
+  | ["didparse", a, _] => doDid "didparse" a
+  | ["diddecode", a, _] => doDid "diddecode" a
+  | ["sigframe", a, _] => doDid "sigframe" a
+  | ["edsigner", a, _] => doDid "edsigner" a
+  | ["edverifier", a, _] => doDid "edverifier" a
+  | ["signew", c, r, _] => doSigNew c r
+  | ["didundef", _, _] => s!"str={Bytes.toHexTok (DidM.toString DidM.undef)}|bytes={Bytes.toHexTok (DidM.bytes DidM.undef)}\t-"
+  | ["keys", _, _, _, _] => "ok\t-"
   | ["cardec", inp, impl] => doCar "cardec" [inp] impl
   | ["carrt", r, b, impl] => doCar "carrt" [r, b] impl
   | ["cartrunc", r, b, impl] => doCar "cartrunc" [r, b] impl
